@@ -72,7 +72,7 @@ def path(rng, pool):
         p = "./" + p
     elif x < 0.15:
         p = p.replace("/", "//") if "/" in p else "sub/../" + p
-    elif x < 0.2:
+    elif x < 0.3:
         p = "$dir/" + p
     elif x < 0.23:
         p = p + "$ x"
@@ -126,7 +126,7 @@ def gen_file(rng, depth, state, name):
             ins = [path(rng, pool_all) for _ in range(rng.randint(0, 3))]
             iins = [path(rng, pool_all) for _ in range(rng.randint(0, 2))] if rng.random() < 0.4 else []
             oins = [path(rng, pool_all) for _ in range(rng.randint(0, 2))] if rng.random() < 0.3 else []
-            vals = [path(rng, pool_all) for _ in range(1)] if rng.random() < 0.15 else []
+            vals = [path(rng, pool_all) for _ in range(rng.randint(1, 2))] if rng.random() < 0.2 else []
             if rule == "phony" and rng.random() < 0.25:
                 ins.insert(rng.randint(0, len(ins)), outs[0])     # legacy self reference
             line = "build " + " ".join(outs) + (" | " + " ".join(io) if io else "") + ": " + rule
@@ -139,6 +139,10 @@ def gen_file(rng, depth, state, name):
             if vals:
                 line += " |@ " + " ".join(vals)
             L.append(line)
+            if "$dir" in line and rng.random() < 0.6:
+                # a variable used in the statement's own paths, bound (or shadowed) in the statement's own block: outputs,
+                # every kind of input and validations are all expanded in that scope
+                L.append("  dir = " + rng.choice(["bld", "o/p", ".", "$x", "q$ r"]))
             for _ in range(rng.randint(0, 2)):
                 L.append("  %s = %s" % (rng.choice(VARS), rvalue(rng)))
             if rng.random() < 0.1 and (ins or iins or oins):
@@ -339,6 +343,74 @@ def _self_refs(files, a):
     return []
 
 
+def same_scope_family(ctx, rng, b, n):
+    """Where the manual is silent - a variable used in a build line's paths and bound again in that statement's own block -
+    one thing still has to hold: every list of the line (outputs, explicit, implicit, order-only inputs, validations) is
+    expanded in the same scope.  The same path expression is put into several lists; the names ninja resolves must agree."""
+    progs, metas = [], []
+    for _ in range(n):
+        var = rng.choice(["dir", "x", "v"])
+        expr = rng.choice(["$%s/h.h" % var, "${%s}h" % var, "p_$%s" % var, "$%s" % var])
+        lists = rng.sample(["ins", "iins", "oins", "vals", "outs"], rng.randint(2, 4))
+        if "outs" in lists and len(lists) > 1:
+            lists = [x for x in lists if x == "outs" or rng.random() < 0.6] or ["outs", "vals"]
+            # the expression as an output: the others then refer to that output (no self dependency)
+            lists = ["outs", "vals"] if set(lists) == {"outs"} else lists
+        L = ["%s = file" % var, "rule r", "  command = c $in $out"]
+        sub = rng.random() < 0.3
+        line = "build o1"
+        if "outs" in lists:
+            line += " " + expr.replace("h.h", "out.h")
+        line += ": r a.c"
+        use = lambda k: (" " + expr) if k in lists and not ("outs" in lists and k != "vals") else ""
+        if "ins" in lists and "outs" not in lists:
+            line += " " + expr
+        if "iins" in lists and "outs" not in lists:
+            line += " | " + expr
+        if "oins" in lists and "outs" not in lists:
+            line += " || " + expr
+        if "vals" in lists:
+            line += " |@ " + (expr if "outs" not in lists else expr.replace("h.h", "chk.h"))
+        L.append(line)
+        bound = rng.random() < 0.75
+        if bound:
+            L.append("  %s = %s" % (var, rng.choice(["block", "b/c", "$%s$%s" % (var, var), "z"])))
+        if rng.random() < 0.3:
+            L.append("  cflags = 1")
+        files = {"build.ninja": ("\n".join(L) + "\n").encode()}
+        if sub:
+            files = {"build.ninja": ("%s = outer\nsubninja s.ninja\n" % var).encode(), "s.ninja": ("\n".join(L) + "\n").encode()}
+        progs.append(files)
+        metas.append((expr, lists, bound, var))
+    res = run_probe(b, progs)
+    for files, r, (expr, lists, bound, var) in zip(progs, res, metas):
+        ctx.evaluations += 1
+        rep = {"files_hex": {k: v.hex() for k, v in files.items()}}
+        if r is None or r.get("crash") is not None or not r.get("ok"):
+            if r is not None and r.get("crash") is not None:
+                ctx.violation("C12/parser-crash/" + (util.san_signature(r["crash"]) or "crash"), r["crash"][-1200:], rep)
+            else:
+                ctx.count("same_scope_rejected")
+            continue
+        e = next((x for x in r["edges"] if "o1" in x["outs"]), None)
+        if e is None:
+            ctx.inconclusive += 1
+            continue
+        if "outs" in lists:
+            continue
+        names = {}
+        for k in ("ins", "iins", "oins", "vals"):
+            if k in lists:
+                got = [x for x in e[k] if x != "a.c"]
+                names[k] = tuple(got)
+        ctx.count("same_scope_checks")
+        if bound:
+            ctx.nontrivial(("same-scope", files["build.ninja"], files.get("s.ninja", b"")))
+        if len(set(names.values())) > 1:
+            ctx.violation("C12/path-lists-expanded-in-different-scopes/%s" % "+".join(sorted(names)),
+                          "the expression %r resolves to %r in one build line%s" % (expr, names, " (variable bound again in the statement's block)" if bound else ""), rep)
+
+
 def run(ctx):
     quick = ctx.tier == "quick"
     rng = random.Random(ctx.seed * 7561 + 12)
@@ -355,6 +427,7 @@ def run(ctx):
     res = run_probe(b, progs)
     for p, r, k in zip(progs, res, kinds):
         judge(ctx, p, r, k)
+    same_scope_family(ctx, rng, b, 1500 if quick else 30000)
     ctx.rule = ("%d grammar-generated programs (1..4 files, include/subninja up to 3 levels) + %d single-token mutants each for half of "
                 "them; distinct_nontrivial = distinct programs on which the reference gave a definite verdict and ninja agreed (equal "
                 "graph or both reject)" % (nprog, nmut))
